@@ -12,6 +12,7 @@ statements on the abstract domain of domain.py.
 """
 import functools
 import heapq
+import itertools
 import re
 
 from . import domain as D
@@ -111,6 +112,8 @@ class _Recorder:
         self.pure = True
         self.events = []
 
+
+_CONST_IDS = itertools.count(1)
 
 FN_TRAIT_CALLS = ("core::ops::function::Fn::call", "core::ops::function::FnMut::call_mut",
                   "core::ops::function::FnOnce::call_once")
@@ -475,8 +478,9 @@ class Interp:
             if isinstance(v, tuple) and v and v[0] == "constref":
                 aid = op.get("_aid")
                 if aid is None:
-                    self.const_counter += 1
-                    aid = op["_aid"] = ("const", "promoted", -self.const_counter)
+                    # the id is cached in the (shared) fact record, so it must be unique across all
+                    # interpreter instances of the process, not per instance
+                    aid = op["_aid"] = ("const", "promoted", -next(_CONST_IDS))
                 if aid not in st.store:
                     st.store[aid] = v[1]
                 return Ref(aid, (), False)
